@@ -900,6 +900,31 @@ def rewriters_check(tier, seed):
             break
         if len(samples) < 3 and has_quant(f):
             samples.append(f.serialize())
+    # prenex: directly nested alternating quantifiers (the order of the prefix matters), also under negation and next to a sibling
+    if not viol:
+        from pysmt.rewritings import prenex_normal_form as _pnf
+        pa, pb, pc = bg.bools[0], bg.bools[1], bg.bools[2]
+        core_ = [m.Iff(pa, pb), m.And(pa, m.Not(pb)), m.Or(m.Iff(pa, pb), pc)]
+        fam = []
+        for c_ in core_:
+            for Q1, Q2 in ((m.ForAll, m.Exists), (m.Exists, m.ForAll)):
+                q = Q1([pa], Q2([pb], c_))
+                fam += [q, m.Not(q), m.And(q, pc), m.Implies(q, Q2([pa], m.Or(pa, pc)))]
+        for f in fam:
+            n += 1
+            try:
+                r = _pnf(f, env)
+            except Exception as e:
+                viol.append({"key": "prenex-exception", "formula": f.serialize(), "error": repr(e)[:200]})
+                break
+            cex = equiv_exact(f, r, rng)
+            if cex is not None:
+                viol.append({"key": "prenex", "formula": f.serialize(), "result": r.serialize(), "interpretation": cex})
+                break
+            bad = shape_prenex(r)
+            if bad:
+                viol.append({"key": "prenex-shape", "formula": f.serialize(), "result": r.serialize(), "problem": bad})
+                break
     # propagate_toplevel: every ordered conjunction of 2-3 equalities among three Int symbols and two constants (both
     # orientations), with one more conjunct that uses the symbols - exhaustive over the orders in which the classes are merged
     x, y, z = bg.ints[0], bg.ints[1], m.Symbol("i2", INT)
